@@ -334,3 +334,68 @@ def allocation_sites(check: Check, repo: Repo) -> None:
     for need in ("pos", "user_stack", "rule_stack", "atomic_depth", "tag_stack", "furthest_pos", "furthest_expected", "furthest_unexpected", "neg_pred_depth", "_pos_history"):
         check.oblige("ALLOC", "src/pest/state.py::ParserState.__init__", f"{need} is initialised per instance" if need in fields else f"{need} is not initialised in ParserState.__init__", need in fields)
     check.count("state_fields", len(fields))
+
+
+MUTATORS = ("append", "extend", "pop", "clear", "insert", "remove", "add", "update", "setdefault", "discard", "popitem", "sort", "reverse", "appendleft", "popleft", "push", "snapshot", "restore", "drop_snapshot")
+
+
+def class_level_mutables(check: Check, repo: Repo) -> None:
+    """A mutable container bound in a class body is one object shared by every instance
+    (and every thread): it may serve as a read-only table, but an in-place mutation
+    through `self.<name>` without a per-instance assignment in __init__ is shared state."""
+    n_attrs = 0
+    for rel in repo.py_files:
+        m = repo.mod(rel)
+        for cname, c in m.classes().items():
+            attrs: dict[str, ast.AST] = {}
+            for st in c.body:
+                tgt = val = None
+                if isinstance(st, ast.Assign) and len(st.targets) == 1 and isinstance(st.targets[0], ast.Name):
+                    tgt, val = st.targets[0].id, st.value
+                elif isinstance(st, ast.AnnAssign) and isinstance(st.target, ast.Name) and st.value is not None:
+                    tgt, val = st.target.id, st.value
+                if tgt is None or tgt == "__slots__":
+                    continue
+                mutable = isinstance(val, (ast.List, ast.Dict, ast.Set, ast.ListComp, ast.DictComp, ast.SetComp)) or (
+                    isinstance(val, ast.Call) and ast.unparse(val.func).split(".")[-1] in ("list", "dict", "set", "defaultdict", "deque", "OrderedDict", "Counter", "Stack", "bytearray"))
+                if mutable:
+                    attrs[tgt] = st
+            if not attrs:
+                continue
+            family = [cname] + [x for x in repo.subclasses(cname) if x != cname]
+            for attr, st in attrs.items():
+                n_attrs += 1
+                shadowed_in: set[str] = set()
+                mutated: list[str] = []
+                for fam in family:
+                    if fam not in repo.class_table:
+                        continue
+                    frel, fnode = repo.class_table[fam]
+                    for fn in [x for x in fnode.body if isinstance(x, ast.FunctionDef)]:
+                        for n in ast.walk(fn):
+                            # per-instance (re)binding in __init__
+                            if fn.name == "__init__" and isinstance(n, (ast.Assign, ast.AnnAssign)):
+                                tg = n.targets if isinstance(n, ast.Assign) else [n.target]
+                                if any(isinstance(t, ast.Attribute) and isinstance(t.value, ast.Name) and t.value.id == "self" and t.attr == attr for t in tg) and (isinstance(n, ast.Assign) or n.value is not None):
+                                    shadowed_in.add(fam)
+                            recv = None
+                            if isinstance(n, ast.Call) and isinstance(n.func, ast.Attribute) and n.func.attr in MUTATORS:
+                                recv = n.func.value
+                            elif isinstance(n, (ast.Assign, ast.AugAssign, ast.Delete)):
+                                tg = n.targets if isinstance(n, (ast.Assign, ast.Delete)) else [n.target]
+                                for t in tg:
+                                    if isinstance(t, ast.Subscript):
+                                        recv = t.value
+                                    elif isinstance(n, ast.AugAssign) and isinstance(t, ast.Attribute):
+                                        recv = t
+                            if recv is not None and isinstance(recv, ast.Attribute) and recv.attr == attr and isinstance(recv.value, ast.Name) and recv.value.id in ("self", "cls"):
+                                mutated.append(f"{fam}.{fn.name}")
+                            if recv is not None and isinstance(recv, ast.Attribute) and recv.attr == attr and ast.unparse(recv.value) in (cname, "type(self)", "self.__class__"):
+                                mutated.append(f"{fam}.{fn.name}")
+                construct = f"{rel}::{cname}.{attr}"
+                # the base class must shadow (then every instance, of every subclass calling super().__init__, has its own)
+                ok = not mutated or cname in shadowed_in
+                sig = "a mutable class-level attribute is mutated in place through instances: one object shared by all instances and threads"
+                check.oblige("CLASS-MUTABLE", construct, (f"class-level {attr} is never mutated in place (a constant table)" if not mutated else f"class-level {attr} is shadowed per instance in {cname}.__init__") if ok else sig, ok,
+                             finding=Finding("CLASS-MUTABLE", construct, sig, f"{cname}.{attr} = {ast.unparse(st.value)[:40]} is bound once in the class body and mutated by {sorted(set(mutated))[:4]}; __init__ does not give each instance its own, so concurrent or successive parses see each other's entries", {"mutated_by": sorted(set(mutated))}))
+    check.count("class_level_mutables", n_attrs)
